@@ -215,14 +215,21 @@ def cell_vs_tok(c, tok):
 class CHECK(Check):
     pid = "C11"
     technique = ("Lean 4 theorems over the Weights/BaseMetrics models (weighted = replicated, scale invariance, lift through "
-                 "grouping, aggregates and named metrics) + metamorphic correspondence on the real functions")
+                 "grouping, aggregates and named metrics), over the TRANSLATED base metrics (Generated/BaseMetricsSrc.lean) and "
+                 "over the full MetricFrame model with arbitrary payload (several sample parameters) + metamorphic "
+                 "correspondence on the real functions")
     level_text = ("Theorems (all row lists, all group structures, all multiplicities k>=1, all c>0): rate/selection_rate/"
                   "mean_prediction of integer-weighted rows = of physically replicated rows; invariance under scaling; "
                   "None = ones; replication commutes with group selection, hence by_group, overall, group_min/max, "
                   "difference, ratio and demographic_parity/equal_opportunity/equalized_odds difference/ratio agree, incl. a "
                   "group that is one weighted row. Tie: the real functions are called on weighted / replicated / scaled / "
                   "omitted / ones variants of generated data and compared to each other, to an exact replicate-and-count "
-                  "oracle and to the compiled Lean model.")
+                  "oracle and to the compiled Lean model. Source tie: the same relations for the translated functions exactly as "
+                  "fairlearn is called (sample_weight=k vs replicated rows with sample_weight=None; scaling; None = ones) via "
+                  "C14.src_*_eq_model. Full frame model: any metric that is weight-multiplicative on slices gives the same "
+                  "by_group (index incl. re-indexed empty combinations, cells) and overall on weighted and replicated rows, any "
+                  "number of features and per-sample parameters (metricframe_weight_is_multiplicity); instances for the pool's "
+                  "weighted means and the two-parameter metric sum(a*ids).")
     design_ref = "DESIGN.md section 4, C11"
     quick_cases = 200
     thorough_cases = 6000
@@ -234,7 +241,8 @@ class CHECK(Check):
             "the mixed dict frame), containers list/ndarray/Series/DataFrame/dict; variants W,R,S3,S4,N,Nn,O as in the module "
             "docstring; six base metrics on every variant, a dict MetricFrame (3 of 6 metrics) on W/R, a callable MetricFrame on "
             "W/S3/S4/N/O, a dict MetricFrame whose metrics get different weight vectors, 2 named fairness metrics on W/R and 1 "
-            "on S3/S4/N/O; distinct = distinct (data, weights, layout, plan); non-trivial = at least one weight > 1")
+            "on S3/S4/N/O, and a callable MetricFrame with TWO sample parameters (a = k, ids = 8*score+1; metric sum(a*ids)) on "
+            "W/R; distinct = distinct (data, weights, layout, plan); non-trivial = at least one weight > 1")
     explanation = ("theorems over the Lean models Weights+BaseMetrics (all inputs); correspondence: real functions on the weight "
                    "variants vs each other (property relations), vs an exact replicate-and-count Fraction oracle and vs the "
                    "compiled driver (values within 1e-12, scalar-ness, result types, group index)")
